@@ -633,6 +633,95 @@ fn enum_c14(tier: &str, r: &mut Rng) -> Vec<Session> {
         }
         out.push(sess(format!("c14e{}", i), cols, lines, ops));
     }
+    // deep nesting: every level restored in reverse order
+    for (i, depth) in [33u32, 40, 64, 100, 300].iter().enumerate() {
+        if tier != "thorough" && *depth > 100 {
+            continue;
+        }
+        let (cols, lines) = (9u32, 7u32);
+        let mut ops = vec![];
+        for d in 0..*depth {
+            ops.push(api(Call::CursorPosition(Some(d % lines + 1), Some(d % cols + 1))));
+            if d % 5 == 0 {
+                ops.push(api(Call::Sgr(vec![30 + d % 8])));
+            }
+            if d == 0 {
+                ops.push(api(Call::SetMode(vec![6], true)));
+            }
+            ops.push(api(Call::SaveCursor));
+        }
+        ops.push(api(Call::ResetMode(vec![6], true)));
+        for _ in 0..*depth + 1 {
+            ops.push(api(Call::RestoreCursor));
+        }
+        out.push(sess(format!("c14deep{}", i), cols, lines, ops));
+    }
+    // DECRC on an empty stack (fresh, and after balanced pairs) from every region x DECOM x cursor row
+    let mut n = 0;
+    for lines in 2..=counts(tier, 4, 6) {
+        let cols = 3;
+        for (m, decom) in regions(lines) {
+            for cy in 0..lines {
+                if let Some(pl) = place(m, decom, cols, cy, 1) {
+                    for balanced in [false, true] {
+                        let mut ops = vec![Op::Quiet(true)];
+                        ops.extend(region_setup(m, decom));
+                        if balanced {
+                            ops.push(api(Call::SaveCursor));
+                            ops.push(api(Call::RestoreCursor));
+                        }
+                        ops.extend(pl.clone());
+                        ops.push(Op::Quiet(false));
+                        ops.push(api(Call::RestoreCursor));
+                        ops.push(api(Call::Draw("x".into())));
+                        n += 1;
+                        out.push(sess(format!("c14z{}", n), cols, lines, ops));
+                    }
+                }
+            }
+        }
+    }
+    out
+}
+
+/// C01 / C09: unusual states x every kind of operation.
+fn enum_c01(tier: &str, r: &mut Rng) -> Vec<Session> {
+    let mut out = vec![];
+    let states: Vec<(u32, u32, Vec<Op>)> = vec![
+        (80, 5, vec![api(Call::SetMode(vec![3], true)), api(Call::Reset)]),
+        (132, 4, vec![]),
+        (132, 4, vec![api(Call::SetMode(vec![3], true))]),
+        (10, 4, vec![api(Call::SetMode(vec![3], true)), api(Call::SetMode(vec![3], true))]),
+        (10, 4, vec![api(Call::SetMode(vec![3], true)), api(Call::Resize(Some(3), Some(7)))]),
+        (1, 1, vec![]),
+        (1, 1, vec![api(Call::Draw("a".into()))]),
+        (2, 1, vec![api(Call::Draw("\u{4e2d}".into()))]),
+        (1, 5, vec![api(Call::SetMargins(Some(2), Some(4))), api(Call::SetMode(vec![6], true))]),
+        (6, 5, vec![api(Call::SetMargins(Some(2), Some(3))), api(Call::CursorPosition(Some(5), Some(6))), api(Call::Draw("ab".into()))]),
+        (6, 5, vec![api(Call::SetMargins(Some(2), Some(3))), api(Call::SetMode(vec![6], true)), api(Call::SaveCursor), api(Call::Resize(Some(2), Some(2)))]),
+        (6, 3, vec![api(Call::SetMode(vec![5], true)), api(Call::SetMode(vec![4], false)), api(Call::ResetMode(vec![7], true)), api(Call::Draw("abcdef".into()))]),
+        (6, 3, vec![api(Call::Draw("ab\u{4e2d}\u{4e2d}".into())), api(Call::CursorPosition(Some(1), Some(4)))]),
+        (8, 3, vec![api(Call::Resize(Some(3), Some(40))), api(Call::SetTabStop), api(Call::CursorPosition(Some(1), Some(39))), api(Call::SetTabStop), api(Call::Resize(Some(3), Some(8)))]),
+    ];
+    let mut cands: Vec<Call> = vec![];
+    for fam in ["draw", "move", "erase", "scroll", "ichdch", "sgr", "mode", "tabs", "save", "margins", "charset", "misc", "resize", "display"] {
+        for _ in 0..counts(tier, 12, 60) {
+            cands.push(gen::call(r, 6, 4, fam));
+        }
+    }
+    for n in [3u32, 5, 6, 7, 25, 4, 20] {
+        for p in [false, true] {
+            cands.push(Call::SetMode(vec![n], p));
+            cands.push(Call::ResetMode(vec![n], p));
+        }
+    }
+    cands.push(Call::Reset);
+    cands.push(Call::AlignmentDisplay);
+    cands.push(Call::RestoreCursor);
+    cands.push(Call::Display);
+    for (i, (cols, lines, prefix)) in states.into_iter().enumerate() {
+        out.push(sess(format!("c01w{}", i), cols, lines, fan_out(r, prefix, &cands, 1, true)));
+    }
     out
 }
 
@@ -945,7 +1034,10 @@ fn enum_c03(tier: &str, r: &mut Rng) -> Vec<Session> {
 }
 
 fn enum_c19(tier: &str, r: &mut Rng) -> Vec<Session> {
-    let alphabet: Vec<&str> = vec!["a", ";", "\\", "]", " ", "\u{e9}", "\x1bq", "\n", "\x1b[", "\u{4e2d}", "0", "\x0e"];
+    let alphabet: Vec<&str> = vec![
+        "a", ";", "\\", "]", " ", "\u{e9}", "\x1bq", "\n", "\x1b[", "\u{4e2d}", "0", "\x0e", "e\u{301}", "\u{212b}",
+        "\u{1100}\u{1161}",
+    ];
     let maxlen = counts(tier, 2, 4);
     let mut payloads: Vec<String> = vec![String::new()];
     let mut frontier = vec![String::new()];
@@ -976,7 +1068,7 @@ fn enum_c19(tier: &str, r: &mut Rng) -> Vec<Session> {
     for (i, p) in payloads.iter().enumerate() {
         let intro = *r.pick(&["\x1b]", "\u{9d}"]);
         let term = *r.pick(&["\x07", "\u{9c}", "\x1b\\"]);
-        let code = if r.chance(3, 4) { *r.pick(&["0", "1", "2"]) } else { *r.pick(&codes) };
+        let code = if r.chance(3, 5) { *r.pick(&["0", "1", "2"]) } else { *r.pick(&codes) };
         let st = format!("{}{};{}{}", intro, code, p, term);
         let mut ops = vec![api(Call::Draw("k".into()))];
         if r.chance(1, 3) {
@@ -1126,6 +1218,7 @@ pub fn generate(prop: &str, tier: &str, seed: u64) -> Vec<Session> {
         "C19" => out.extend(enum_c19(tier, &mut r)),
         "C11" => out.extend(enum_c11(tier, &mut r)),
         "C01" => {
+            out.extend(enum_c01(tier, &mut r));
             // bigger geometries incl. 140x40 and the 132-column switch, hostile streams
             for i in 0..counts(tier, 40, 800) {
                 let mut rr = r.fork();
@@ -1138,6 +1231,7 @@ pub fn generate(prop: &str, tier: &str, seed: u64) -> Vec<Session> {
             out.extend(enum_c11(tier, &mut r).into_iter().take(counts(tier, 400, 4000) as usize));
         }
         "C09" | "C17" => {
+            out.extend(enum_c01(tier, &mut r));
             out.extend(enum_c16(tier, &mut r).into_iter().take(counts(tier, 60, 2000) as usize));
             out.extend(enum_c12(tier, &mut r).into_iter().take(2));
             // every region x cursor row x scrolling operation, every cursor position x movement
